@@ -232,6 +232,52 @@ theorem request_error_display (e : ReqErr) :
 theorem bad_request_body (e : ReqErr) : badRequestBody e = D_400_PRE ++ e.display ++ D_400_POST := rfl
 
 
+
+/-! ### C05 — the response builder, translated (tools/extract.py: `translate_new`, `translate_builder`)
+
+`Response::new` (with `..Default::default()` resolved through `impl Default for ResponseHeaders` / `MediaType`) and
+the eight public setters (through the `ResponseHeaders` setters they call) are translated into Lean functions over
+the model's record; with `response_writer` the whole of response.rs that C05 talks about — construction, every
+builder call, serialization — is tied to the model by proof, for EVERY version, status, call and response. -/
+
+theorem response_new :
+    Extracted.responseNew = none ∨
+    ∃ f, Extracted.responseNew = some f ∧ ∀ (v : Version) (s : StatusCode), f v s = Response.new v s := by
+  first
+    | exact Or.inl rfl
+    | (right
+       refine ⟨_, rfl, ?_⟩
+       intro v s
+       cases s <;> rfl)
+
+theorem response_apply :
+    Extracted.responseApply = none ∨
+    ∃ f, Extracted.responseApply = some f ∧ ∀ (r : Response) (op : BuildOp), f r op = r.apply op := by
+  first
+    | exact Or.inl rfl
+    | (right
+       refine ⟨_, rfl, ?_⟩
+       intro r op
+       cases op <;> rfl)
+
+/-- hence every response built through the public API is the model's: the translated constructor folded with the
+    translated setters equals `Response.build` -/
+theorem response_build (v : Version) (s : StatusCode) (ops : List BuildOp) :
+    (Extracted.responseNew = none ∨ Extracted.responseApply = none) ∨
+    ∃ n a, Extracted.responseNew = some n ∧ Extracted.responseApply = some a ∧
+      ops.foldl a (n v s) = Response.build v s ops := by
+  rcases response_new with h | ⟨n, hn, hn'⟩
+  · exact Or.inl (Or.inl h)
+  rcases response_apply with h | ⟨a, ha, ha'⟩
+  · exact Or.inl (Or.inr h)
+  refine Or.inr ⟨n, a, hn, ha, ?_⟩
+  unfold Response.build
+  rw [hn' v s]
+  generalize Response.new v s = r0
+  induction ops generalizing r0 with
+  | nil => rfl
+  | cons op ops ih => simp only [List.foldl_cons, ha' r0 op]; exact ih _
+
 /-! ### C07 / C06 — the predicates that decide removal and pending output (tools/extract.py: `translate_pred`)
 
 `ClientConnection::is_done` and `HttpConnection::pending_write` are one boolean expression each; the translator
